@@ -81,6 +81,15 @@ def run(rep, br, proofs, rng, tier):
         if k == 0: cases.append(mk_case("r%d" % i, "jsonstr", rng.choice(["0", "1"]), hexs(bytes(rng.choice([rng.randrange(256), rng.randrange(128), rng.choice(b"\"\\<>&\x08\x0c\n\xe2\x80\xa8\xa9\xc3\xa9\xff")]) for _ in range(rng.randrange(0, 12))))))
         elif k == 1: cases.append(mk_case("m%d" % i, "jsonmarshal", gen_val(rng, rng.choice([0, 1, 2, 3, 4]), plain=rng.random() < .8)))
         else: cases.append(mk_case("d%d" % i, "jsondoc", hexs(gen_doc(rng, rng.choice([0, 1, 2, 3])))))
+    # strings and bytes of every length class (scratch buffers, the base64 streaming threshold at 1024 characters,
+    # every remainder modulo 3), bare and nested
+    k = 0
+    for n in [0, 1, 2, 3, 4, 5, 46, 47, 48, 49, 63, 64, 65, 190, 191, 192, 193, 765, 766, 767, 768, 769, 770, 771, 772, 1022, 1023, 1024, 1025, 1026, 4095, 4096, 4097, 4098]:
+        by = bytes((37 * j + n) % 256 for j in range(n))
+        st = bytes((b"ab<\"\\\n\xc3\xa9q")[(j + n) % 9] for j in range(n))
+        for v in (["y", hexs(by)], ["s", hexs(st)]):
+            for w in (v, ["a", ["i", "1"], v], ["m", [hexs(b"k"), v]]):
+                cases.append(mk_case("z%d" % k, "jsonmarshal", w)); k += 1
     for i, d in enumerate(number_shapes()):
         cases.append(mk_case("n%d" % i, "jsondoc", hexs(d if i % 3 else b"[" + d + b"]" if i % 2 else b"{\"a\":" + d + b"}")))
     impl, _ = vlib.run_impl([c["line"] for c in cases], timeout=2400)
@@ -142,7 +151,7 @@ def run(rep, br, proofs, rng, tier):
             rep.violation({"property": "C17", "kind": "correspondence", "why": c.get("why", "string escaping model (Json/Json.v) and Marshal disagree"), "case": c["line"][:2000], "impl": str(c.get("impl"))[:400], "model": str(c.get("model"))[:400]}, found=False)
     rep.coverage.update({
         "evaluations": len(cases) + len(vcases), "distinct_nontrivial": stats["marshal_equal"] + stats["docs_accepted"] + stats["docs_rejected"],
-        "rule": "strings over control characters, quotes, HTML characters, U+2028/9, valid and every kind of invalid UTF-8, with and without HTML escaping: Marshal vs the Coq escaping model and the recogniser; nested values of every type (NaN/Inf, chars, bytes, non-UTF-8 keys, functions, errors, sync maps): Marshal vs encoding/json on ToInterface(v), and every output through the recogniser json_valid; documents (valid, near-valid, mutated, whitespace, every combination of sign / integer part / fraction / exponent shapes of the number grammar, bad escapes, truncated): Unmarshal, Valid, Compact and Indent vs encoding/json, and Valid vs the recogniser; non-trivial = outputs compared equal / documents classified",
+        "rule": "strings over control characters, quotes, HTML characters, U+2028/9, valid and every kind of invalid UTF-8, with and without HTML escaping: Marshal vs the Coq escaping model and the recogniser; strings and bytes of every length class (0..5, around 48, 64, 192, 768, 1024, 4096: scratch buffers and the base64 streaming threshold, every remainder modulo 3) bare and nested; nested values of every type (NaN/Inf, chars, bytes, non-UTF-8 keys, functions, errors, sync maps): Marshal vs encoding/json on ToInterface(v), and every output through the recogniser json_valid; documents (valid, near-valid, mutated, whitespace, every combination of sign / integer part / fraction / exponent shapes of the number grammar, bad escapes, truncated): Unmarshal, Valid, Compact and Indent vs encoding/json, and Valid vs the recogniser; non-trivial = outputs compared equal / documents classified",
         "samples": [cases[0]["line"], cases[len(STRS)*2+1]["line"], cases[-1]["line"]],
         "stats": stats, "validator_runs": len(vcases), "disagreements": len(dis), "oracle_failures": len(fails)})
 
